@@ -292,6 +292,10 @@ func (m *observerManager) FireCreateEntity(e Entity, mask *bitMask, earlyOut boo
 	observers := m.observers[OnCreateEntity]
 	found := false
 	for _, o := range observers {
+		if o.id == maxObserverID {
+			// Unregistered from inside a callback of the running dispatch.
+			continue
+		}
 		if o.hasWith && !mask.Contains(&o.withMask) {
 			continue
 		}
@@ -323,6 +327,10 @@ func (m *observerManager) FireCreateEntityRel(e Entity, mask *bitMask, earlyOut 
 	observers := m.observers[OnAddRelations]
 	found := false
 	for _, o := range observers {
+		if o.id == maxObserverID {
+			// Unregistered from inside a callback of the running dispatch.
+			continue
+		}
 		if o.hasComps && !mask.Contains(&o.compsMask) {
 			continue
 		}
@@ -345,6 +353,10 @@ func (m *observerManager) FireRemoveEntity(e Entity, mask *bitMask, earlyOut boo
 	observers := m.observers[OnRemoveEntity]
 	found := false
 	for _, o := range observers {
+		if o.id == maxObserverID {
+			// Unregistered from inside a callback of the running dispatch.
+			continue
+		}
 		if o.hasWith && !mask.Contains(&o.withMask) {
 			continue
 		}
@@ -369,6 +381,10 @@ func (m *observerManager) FireRemoveEntityRel(e Entity, mask *bitMask, earlyOut 
 	observers := m.observers[OnRemoveRelations]
 	found := false
 	for _, o := range observers {
+		if o.id == maxObserverID {
+			// Unregistered from inside a callback of the running dispatch.
+			continue
+		}
 		if o.hasComps && !mask.Contains(&o.compsMask) {
 			continue
 		}
@@ -404,6 +420,10 @@ func (m *observerManager) FireAdd(evt EventType, e Entity, oldMask *bitMask, new
 	observers := m.observers[evt]
 	found := false
 	for _, o := range observers {
+		if o.id == maxObserverID {
+			// Unregistered from inside a callback of the running dispatch.
+			continue
+		}
 		if o.hasComps && (!newMask.Contains(&o.compsMask) || oldMask.ContainsAny(&o.compsMask)) {
 			continue
 		}
@@ -432,6 +452,10 @@ func (m *observerManager) FireRemove(evt EventType, e Entity, oldMask *bitMask, 
 	observers := m.observers[evt]
 	found := false
 	for _, o := range observers {
+		if o.id == maxObserverID {
+			// Unregistered from inside a callback of the running dispatch.
+			continue
+		}
 		if o.hasComps && (!oldMask.Contains(&o.compsMask) || newMask.ContainsAny(&o.compsMask)) {
 			continue
 		}
@@ -456,6 +480,10 @@ func (m *observerManager) FireSet(e Entity, mask *bitMask, newMask *bitMask) {
 	}
 	observers := m.observers[OnSetComponents]
 	for _, o := range observers {
+		if o.id == maxObserverID {
+			// Unregistered from inside a callback of the running dispatch.
+			continue
+		}
 		if o.hasComps && !mask.Contains(&o.compsMask) {
 			continue
 		}
@@ -481,6 +509,10 @@ func (m *observerManager) FireSetRelations(evt EventType, e Entity, mask *bitMas
 	observers := m.observers[evt]
 	found := false
 	for _, o := range observers {
+		if o.id == maxObserverID {
+			// Unregistered from inside a callback of the running dispatch.
+			continue
+		}
 		if o.hasComps && !mask.Contains(&o.compsMask) {
 			continue
 		}
@@ -505,6 +537,10 @@ func (m *observerManager) FireCustom(evt EventType, e Entity, mask, entityMask *
 	}
 	observers := m.observers[evt]
 	for _, o := range observers {
+		if o.id == maxObserverID {
+			// Unregistered from inside a callback of the running dispatch.
+			continue
+		}
 		if o.hasComps && !mask.Contains(&o.compsMask) {
 			continue
 		}
